@@ -143,11 +143,11 @@ TEXT = {
            "validates, and n was not the patch booting at death; crash_safe - for a launch [init ; any call, any server behaviour] started from ANY storage directory and killed "
            "anywhere before, between or in the middle of the rewrites of the two state files, with ANY contents of patches/ at that moment, the next launch of this release selects "
            "nothing or a patch that validates, was recorded before the interrupted launch in a readable state of this release (or is the one being installed), and was not booting "
-           "at death; crash_in_progress - if the dying call (anything but a launch start or a success report) found patch bm marked as booting, the next launch does not select bm; crash_safe_not_banned with C02's invariant. Tie: the real library is killed by an LD_PRELOAD interposer immediately before (or half-way through) its k-th "
+           "at death; crash_in_progress - if the dying call (anything but a launch start or a success report) found patch bm marked as booting, the next launch does not select bm; crash_safe_not_banned with C02's invariant; reset_fault_safe - one I/O error in any of the three steps of the release-change reset, execution continuing, leaves nothing selectable. Tie: the real library is killed by an LD_PRELOAD interposer immediately before (or half-way through) its k-th "
            "mutating file-system call, for every k of the launch; the state files at death must be one of the model's crash states, a real re-launch follows, and the same "
            "predicate (crashChecks) judges what it selects.",
   "design_ref": "DESIGN.md section 4, C04",
-  "note": "partial: the property's second sentence (single I/O error, execution continues) is exercised on the real library (interposer mode eio, thorough tier) but not covered by a theorem; durability below the system-call level (no fsync) is outside the model; 'not banned before' is proved under C02's invariant of the state before the launch (hypothesis hban).",
+  "note": "partial: the property's second sentence (single I/O error, execution continues) has a theorem only for the release-change reset; elsewhere it is exercised on the real library (interposer mode eio) and judged by eioChecks; durability below the system-call level (no fsync) is outside the model; 'not banned before' is proved under C02's invariant of the state before the launch (hypothesis hban).",
   "technique": "Lean 4 theorem (save-event semantics of every critical section, all crash points, arbitrary artifact directory) + system-call-level crash injection on the real library",
  },
  "C09": {
